@@ -158,42 +158,87 @@ def run_c06(ctx):
 
     policy = t.pick([None, True, False], "overwrite") if role == "harvester" else None
     to_df = role == "runner" and kind in F.DF_KINDS and t.flag(1, 3, "to_df")
-    rounds = 1 if role == "runner" else t.int_between(1, 2, "rounds")
-    combos_given = dict(sw.combos) if m.sc.spell == "dict" else tuple(
-        (a, tuple(v)) for a, v in sw.combos)
+    rounds = 1 if role == "runner" else t.int_between(1, 3, "rounds")
+    if kind in ("bool", "str") and role == "harvester":
+        # merging such results at disjoint coordinates NaN-pads an object array that
+        # netCDF cannot store - in the direct harvest just the same; not C06's subject
+        rounds = 1
+    # Every crop of a run sweeps the same grid plus a one-valued "round tag" grid
+    # argument g, so that crops write to disjoint coordinates of the shared storage
+    # (losing one crop's data cannot hide behind another crop's identical data).
+    if rounds > 1:
+        sw.combos.append(("g", [0]))
+        m.argnames.append("g")
+        m.fn = calllog.make_fn(kind, m.argnames)
+    interleaved = rounds > 1 and t.flag(1, 2, "sow-all-first")
+    ctx.t("plan", {"crops": rounds, "sow-all-before-reaping": interleaved})
     deferred = []
-    for rnd in range(rounds):
-        conflict = False
-        if rnd == 1:
-            # a second crop into the same storage: same sweep again (identical data
-            # merges; for a sampler n more rows) - or, for a harvester, a new
-            # 'version' of the function so that every point conflicts
-            m.NAME = "crp2"
-            m.location = os.path.join(m.root, ".xyz-crp2")
-            # (bool results of two versions can coincide, so a conflict is not certain)
-            if role == "harvester" and kind != "bool" and t.flag(1, 2, "second-crop-conflicts"):
-                fspec.resources["v"] = 1
-                if twin["f"] is not None:
-                    twin["f"].runner.resources = dict(fspec.resources)
-                conflict = policy is None
-                ctx.t("second crop uses version 1 of the function")
-        seed = t.choose(1000, "np-seed-twin")
-        # ------------------------------------------------------------ crop side
+    st = [dict(name=("crp", "crp2", "crp3")[r], g=r, conflict=False) for r in range(rounds)]
+
+    def select(r):
+        """point the machine at crop r"""
+        d = st[r]
+        m.NAME = d["name"]
+        m.location = os.path.join(m.root, ".xyz-" + d["name"])
+        if rounds > 1:
+            sw.combos[-1] = ("g", [d["g"]])
+        for k in ("batches", "B", "long_crop", "sow_crop"):
+            if k in d:
+                setattr(m, k, d[k])
+        if "v" in d:
+            fspec.resources["v"] = d["v"]
+
+    def remember(r):
+        for k in ("batches", "B", "long_crop", "sow_crop"):
+            st[r][k] = getattr(m, k, None)
+
+    def combos_given():
+        return dict(sw.combos) if m.sc.spell == "dict" else tuple(
+            (a, tuple(v)) for a, v in sw.combos)
+
+    def do_sow(r):
+        d = st[r]
+        if r == 1 and not interleaved and role == "harvester" and kind != "bool" \
+                and t.flag(1, 3, "second-crop-conflicts"):
+            # same coordinates as the first crop but a new 'version' of the function:
+            # every point conflicts (bool results of two versions can coincide)
+            d["g"] = 0
+            d["v"] = 1
+            d["conflict"] = policy is None
+            ctx.t("second crop: same coordinates, version 1 of the function")
+        select(r)
+        # the user's session keeps its farmer object, or builds a new one
+        m.reuse_farmer = r > 0 and t.flag(1, 2, "same-farmer-object")
+        if m.reuse_farmer and m.farmer_obj is not None and role == "harvester":
+            # (the session may have switched to a new version of its function)
+            m.farmer_obj.runner.resources = dict(fspec.resources)
+        d["seed"] = t.choose(1000, "np-seed-twin")
         if role == "sampler":
-            n = t.int_between(1, 6, "nsamples")
-            # CropMachine.sow_samples draws its own np seed from the tape: pin it
-            m.tape_seed_override = seed
-            _sow_samples(m, n, seed)
+            d["n"] = t.int_between(1, 6, "nsamples")
+            _sow_samples(m, d["n"], d["seed"])
         else:
             m.sow()
+        remember(r)
+
+    def do_grow(r):
+        select(r)
         order = t.perm(sorted(m.batches), "grow-order")
         while order:
             k = t.int_between(1, len(order), "grow-chunk")
             chunk, order = order[:k], order[k:]
             m.grow_op(ids=chunk, how=t.pick(["crop_grow", "grow_fn"], "grow-how")
                       if len(chunk) == 1 else "crop_grow")
+
+    def do_reap(r):
+        d = st[r]
+        select(r)
+        conflict = d["conflict"]
+        seed = d["seed"]
+        n = d.get("n")
         crop, which = m.crop_for("reap-reuse")
-        ctx.t("reap", {"overwrite": policy, "to_df": to_df}, which)
+        ctx.t("reap", d["name"], {"overwrite": policy, "to_df": to_df}, which)
+        if twin["f"] is not None and role == "harvester":
+            twin["f"].runner.resources = dict(fspec.resources)
 
         def reap():
             c = crop if crop is not None else m.load_crop()
@@ -206,6 +251,7 @@ def run_c06(ctx):
         val_, exc_ = m.call("reaper", reap, oracle="reap-raised", must_succeed=not conflict)
         # ------------------------------------------------------------ twin side
         sow_const = m.sow_constants()
+        cg = combos_given()
         if conflict:
             # default policy + conflicting data: both the crop's reap and the
             # direct harvest must refuse, and leave the same file behind
@@ -213,7 +259,7 @@ def run_c06(ctx):
                 raise Violation("conflicting-reap-not-refused",
                                 "second crop with conflicting data and overwrite=None: reap "
                                 "returned / raised {!r}".format(exc_))
-            _, exc2 = m.call("direct-run", lambda: _direct_conflict(get_twin(), combos_given, sw, sow_const),
+            _, exc2 = m.call("direct-run", lambda: _direct_conflict(get_twin(), cg, sw, sow_const),
                              must_succeed=False)
             if exc2 is None:
                 raise HarnessError("twin did not conflict: {!r}".format(exc2))
@@ -226,7 +272,7 @@ def run_c06(ctx):
             if not G.rexists(m.location):
                 raise Violation("crop-deleted-by-refused-reap", "the conflicting crop is gone")
             ctx.stats["conflicting-second-crop-refused"] += 1
-            continue
+            return
         (c, got) = val_
 
         def direct():
@@ -253,9 +299,9 @@ def run_c06(ctx):
             if sw.cases:
                 kw["cases"] = [dict(c_) for c_ in sw.cases]
             if role == "harvester":
-                f.harvest_combos(combos_given, overwrite=policy, **kw)
+                f.harvest_combos(cg, overwrite=policy, **kw)
                 return f.last_ds
-            return runner.run_combos(combos_given, **kw)
+            return runner.run_combos(cg, **kw)
 
         want, _ = m.call("direct-run", direct, oracle="direct-run-raised")
         # ------------------------------------------------------------- compare
@@ -286,8 +332,24 @@ def run_c06(ctx):
             compare_df(d1, d2, sow_const, deferred, "sample-file-differs-from-direct")
         if G.rexists(m.location):
             raise Violation("crop-left-after-reap", "farmer crop not cleaned up after a full reap")
+
+    if interleaved:
+        for r in range(rounds):
+            do_sow(r)
+        for r in range(rounds):
+            do_grow(r)
+            do_reap(r)
+    else:
+        for r in range(rounds):
+            do_sow(r)
+            do_grow(r)
+            do_reap(r)
+    ctx.stats["crops-{}".format(rounds)] += 1
+    if interleaved:
+        ctx.stats["sown-all-before-reaping"] += 1
     ctx.nontrivial = m.B >= 1
-    ctx.key = repr((role, kind, m.sc.N, m.B, m.sc.api, fspec.describe(), rounds, to_df, policy))
+    ctx.key = repr((role, kind, m.sc.N, m.B, m.sc.api, fspec.describe(), rounds, interleaved,
+                    to_df, policy))
     if deferred:
         raise deferred[0]
 
